@@ -846,7 +846,24 @@ class ODLEncoder(PVLEncoder):
         elif self.is_symbol(value):
             return "'" + value + "'"
         else:
-            return super().encode_string(value)
+            return self._encode_text_string(value)
+
+    def _encode_text_string(self, value):
+        # Quotes *value* as PVLEncoder does.  If that takes single quotes
+        # (there is a double quote in the string), the result is a Symbol
+        # String, which may not contain format effectors: it stays on
+        # one line.
+        s = super(ODLEncoder, self).encode_string(value)
+        if s.startswith("'"):
+            for fe in self.grammar.format_effectors:
+                if fe in value:
+                    raise ValueError(
+                        "ODL Text Strings are delimited by double "
+                        "quotes, and Symbol Strings cannot contain "
+                        f'format effectors, so the string ("{value}") '
+                        "cannot be written."
+                    )
+        return s
 
     def encode_time(self, value: datetime.time) -> str:
         """Extends parent function since ODL allows a time zone offset
@@ -1186,7 +1203,7 @@ class PDSLabelEncoder(ODLEncoder):
         elif self.is_symbol(value) and self.symbol_single_quote:
             return "'" + value + "'"
         else:
-            return super(ODLEncoder, self).encode_string(value)
+            return self._encode_text_string(value)
 
     def encode_time(self, value: datetime.time) -> str:
         """Overrides parent's encode_time() function because
